@@ -15,6 +15,7 @@ mod c02;
 mod c02live;
 mod c02h3;
 mod h3cli;
+mod muxh3;
 mod c03;
 mod c04;
 mod c05;
@@ -115,6 +116,8 @@ fn main() {
         "c19live" => c19::run_live(&mut ctx),
         "c04live" => c04::run_live(&mut ctx),
         "c09live" => c09live::run(&mut ctx),
+        "c07h3" => muxh3::run_udp(&mut ctx),
+        "c11h3" => muxh3::run_icmp(&mut ctx),
         "c14est" => c10::run_establish(&mut ctx),
         "c14live" => c14live::run(&mut ctx),
         "c11" => c11::run(&mut ctx),
